@@ -44,7 +44,13 @@ def _sched_scenarios():
     base = {"threads": {"A": [["send_text", P("A", 0)], ["send_binary", P("A", 1)]]},
             "loop": {"bytes": pings, "idle_waits": 0, "react": {"ping": ["send_text", "re:"]}},
             "copts": {"ping_rate": 0}}
-    return {"pong_vs_sender_plain": dict(base, deflate=False), "pong_vs_sender_deflate": dict(base, deflate=True)}
+    # another thread calls close() while the event loop answers Pings: a Ping that is handed to the application while
+    # no Close frame has been written yet must have been answered
+    closer = {"threads": {"C": [["close", 1000, "bye"]]},
+              "loop": {"bytes": pings, "idle_waits": 0}, "copts": {"ping_rate": 0}, "deflate": False}
+    closer2 = dict(closer, threads={"C": [["close", 1000, "bye"]], "A": [["send_text", P("A", 0)]]})
+    return {"pong_vs_sender_plain": dict(base, deflate=False), "pong_vs_sender_deflate": dict(base, deflate=True),
+            "pong_vs_closer": closer, "pong_vs_closer_and_sender": closer2}
 
 
 def _sched_judge(scn, out):
@@ -59,6 +65,8 @@ def _sched_judge(scn, out):
     frames, problems = wire.decode_client_frames(out.wire)
     if problems:
         return "torn_library_write", "; ".join(problems[:3])
+    if "C" in scn["threads"]:
+        return _judge_closer(scn, out)
     peer = deflateref.Peer()
     seq = []
     for f in frames:
@@ -82,6 +90,43 @@ def _sched_judge(scn, out):
     order = [i for i, (op, b) in enumerate(seq) if op == wire.PONG]
     if [seq[i][1] for i in order] != [b"p-one", b"p-two"]:
         return "pong_order", "Pongs out of order: %s" % [seq[i][1] for i in order]
+    return None
+
+
+def _judge_closer(scn, out):
+    """Every Ping handed to the application at a moment when no Close frame had been written yet has its Pong on the
+    wire already (the library answers before it yields the event); the Pongs carry the Pings' payloads in order."""
+    # the wire is the concatenation of the (possibly split) writes: a frame is "written" with its last byte
+    stream = b"".join(d for _, d in out.send_log)
+    ends = []
+    pos = 0
+    for i, d in out.send_log:
+        pos += len(d)
+        ends.append((pos, i))
+    frames, problems = wire.decode_client_frames(stream)
+    if problems:
+        return "torn_library_write", "; ".join(problems[:3])
+    closes_at = None
+    pongs = []
+    for f in frames:
+        li = next(i for end, i in ends if end >= f.end)
+        if f.opcode == wire.CLOSE and closes_at is None:
+            closes_at = li
+        if f.opcode == wire.PONG:
+            pongs.append((li, f.payload))
+    for name, data, mark in out.loop_marks:
+        if name != "ping":
+            continue
+        close_written = closes_at is not None and closes_at < mark
+        answered = [i for i, p in pongs if p == data and i < mark]
+        if not close_written and not answered:
+            return "ping_unanswered_before_close", (
+                "Ping %r was handed to the application when no Close frame had been written (Close at log %s, event at log "
+                "%d) but no Pong for it is on the wire; pongs %s" % (data, closes_at, mark, pongs))
+    want = [d for n, d, m in out.loop_marks if n == "ping"]
+    got = [p for _, p in pongs]
+    if got != want[:len(got)]:
+        return "pong_order", "Pongs %s for Pings %s" % (got, want)
     return None
 
 
